@@ -359,6 +359,33 @@ class Kernel:
         return f"def {self.name} {params} : {rty} :=\n{text}\n"
 
 
+def stub_kernel(fn: ast.FunctionDef) -> str:
+    """signature-correct placeholder for a kernel whose body could not be translated (keeps the driver, which
+    names every kernel, elaborating): returns the written array parameters unchanged"""
+    out = []
+    for twin in (False, True):
+        k = Kernel(fn, exec_twin=twin)
+        k.declare_params()
+        body = [s for s in fn.body if not (isinstance(s, ast.Expr) and isinstance(s.value, ast.Constant))]
+        ret = [s for s in body if isinstance(s, ast.Return)]
+        if ret:
+            rty, val = arr_ty(RAT), "fun _ => 0"
+        else:
+            written = k.assigned(body)
+            res = [p for p, _ in k.params if p in written and p in k.arrays]
+            if not res:
+                raise Untranslatable("kernel writes no array parameter")
+            rty = " × ".join(f"({k.ty(x)})" for x in res) if len(res) > 1 else k.ty(res[0])
+            val = k.pack(res)
+        extra = "".join(f" ({a}_len : Nat)" for a in sorted({ast.unparse(c.args[0]) for c in ast.walk(fn)
+                        if isinstance(c, ast.Call) and ast.unparse(c.func) == "len" and c.args
+                        and isinstance(c.args[0], ast.Name) and c.args[0].id in k.arrays}))
+        params = " ".join(f"({p} : {t})" for p, t in k.params) + extra
+        name = f"{fn.name}_exec (memo : Nat)" if twin else fn.name
+        out.append(f"def {name} {params} : {rty} := {val}\n")
+    return "\n".join(out)
+
+
 def translate_kernel(fn: ast.FunctionDef, consts: dict[str, float] | None = None) -> str:
     """the kernel as a functional program, and its executable twin (same walk, loops tabulate their state)"""
     return Kernel(fn, consts=consts).translate() + "\n" + Kernel(fn, exec_twin=True, consts=consts).translate()
